@@ -65,11 +65,36 @@ def c04(run):
 
 
 def replay(path):
+    """Re-runs a recorded violation on the current tree of /repo: the recorded session (scenario) is executed again by
+    its driver and the new trace is validated by the trace specification that rejected the recorded one."""
     rp = json.load(open(path))
     run = Run("replay", "quick")
     try:
-        sess = rp["session"]
-        ns, nrej = X.run_and_validate(run, [sess], "replay")
+        sess = rp.get("session")
+        spec = rp.get("spec", "ExecTrace.tla")
+        if sess is None:
+            case = rp.get("case") or rp.get("race") or rp
+            print("this replay file records a single evaluated case (no session to re-run); what was observed:")
+            print(json.dumps(case, indent=1)[:3000])
+            print("re-run the property's check to evaluate it again on the current tree")
+            return 0
+        if spec.startswith("ExecTrace"):
+            X.run_and_validate(run, [sess], "replay", keys=True)
+        elif spec.startswith("ConcTrace"):
+            B._run(run, [sess], "replay", "ConcTrace.tla", "ConcTrace.cfg", B.conc_describe)
+        elif spec.startswith("LocalsTrace"):
+            B._run(run, [sess], "replay", "LocalsTrace.tla", "LocalsTrace.cfg", B.locals_describe)
+        elif spec.startswith("RuleSetTrace"):
+            R._run(run, [sess], "replay", "RuleSetTrace.tla", "RuleSetTrace.cfg", R.rs_describe, nshards=1)
+        elif spec.startswith("CompileTrace"):
+            R._run(run, [sess], "replay", "CompileTrace.tla", "CompileTrace.cfg", R.cm_describe, nshards=1)
+        elif spec.startswith("PoolTrace"):
+            P.run_sessions(run, [sess], "replay")
+        elif spec.startswith("LangTrace"):
+            L.run_lang(run, [sess], "replay")
+        else:
+            print("no replay procedure for", spec)
+            return 2
         for key, p, what in run.violations:
             print("REPRODUCED:", what)
         if not run.violations:
